@@ -133,7 +133,7 @@ def gc_vs_txn(sp, rig="L", scenario="commit", K=2, max_age=8000):
 
 def obligations(tier):
     obs = []
-    T = 400 if tier == "quick" else 1800
+    T = 400 if tier == "quick" else 1500
     if tier == "quick":
         cfgs = [("L", "commit", 1), ("L", "append", 1), ("L", "rollback", 2), ("S", "commit", 1), ("L", "retry", 1)]
     else:
